@@ -1,0 +1,26 @@
+//go:build verif
+
+package server
+
+// Verification hooks (build tag "verif"). With the tag off these are empty
+// inlinable functions (see verif_off.go).
+
+// VerifPoint is called at step boundaries of commands, probes and requests.
+// A harness may park the calling goroutine here to hold a window open.
+var VerifPoint func(label, key string)
+
+// VerifWrapProxy is called once per Target after its proxy handler is built,
+// so that a harness can point the target's transport at an in-memory network.
+var VerifWrapProxy func(t *Target)
+
+func verifPoint(label, key string) {
+	if f := VerifPoint; f != nil {
+		f(label, key)
+	}
+}
+
+func verifWrapProxy(t *Target) {
+	if f := VerifWrapProxy; f != nil {
+		f(t)
+	}
+}
